@@ -51,15 +51,23 @@ def quiet():
         sys.stdout = old
 
 
+def _override():
+    ov = os.environ.get("VERIF_BOUNDS")
+    return json.loads(ov) if ov else {}
+
+
 def bounds(table, tier):
     """The bounds of a check for a tier; VERIF_BOUNDS='{"S": 12}' overrides
-    single entries (for exploratory deeper runs; registered commands never set
-    it)."""
+    single entries (for exploratory deeper runs and for the reduced battery
+    of tools/mutsweep.py; registered commands never set it)."""
     b = dict(table[tier])
-    ov = os.environ.get("VERIF_BOUNDS")
-    if ov:
-        b.update(json.loads(ov))
+    b.update({k: v for k, v in _override().items() if k in b})
     return b
+
+
+def bound(name, default):
+    """A scalar bound that VERIF_BOUNDS may override under `name`."""
+    return _override().get(name, default)
 
 
 def seed():
